@@ -7,7 +7,9 @@ use crate::common::phys::PhysLayer;
 use crate::error::Shutdown;
 use crate::retry::{RetryStrategy, RetryCall};
 use crate::shims::net::{HostAddr, TcpStream, TlsClientConfig};
-use crate::types::ChannelLoggingMode;
+use crate::types::{ChannelLoggingMode, ClientOptions};
+use crate::client::channel::{Channel, ClientTask};
+use crate::shims::tokio;
 
 //@item rodbus/src/tcp/client.rs | TcpTaskConnectionHandler
 //@item rodbus/src/tcp/client.rs | TcpChannelTask
@@ -20,6 +22,16 @@ impl TcpTaskConnectionHandler {
 impl TcpChannelTask {
     pub open spec fn wf(&self) -> bool { self.client_loop.wf() && self.client_loop.writer.is_tcp() }
     pub open spec fn states(&self) -> Seq<ClientState> { self.listener.log() }
+
+// a TCP / TLS channel task speaks MBAP on both halves and takes decode level and timeout limit from the options it is given
+//@fn rodbus/src/tcp/client.rs | TcpChannelTask::new | tags=C05,C12,C13,C20
+//@|    ensures r.wf(), r.client_loop.reader.parser is Tcp, r.client_loop.reader.logical().len() == 0,
+//@|        r.client_loop.decode == options.decode_level, !r.client_loop.enabled, r.client_loop.rx == rx,
+//@|        r.client_loop.tx_id.v() == 0, r.client_loop.timeout_counter.count() == 0,
+//@|        options.max_timeouts is None ==> r.client_loop.timeout_counter.limit() is None,
+//@|        options.max_timeouts is Some ==> r.client_loop.timeout_counter.limit() == Some(crate::nz_value(options.max_timeouts->Some_0)),
+//@|        r.connection_handler == connection_handler, r.connect_retry == connect_retry, r.listener == listener, r.host == host,
+//@|        r.channel_logging == options.channel_logging,
 
 // [C13] Disabled first, Shutdown exactly once and last
 //@fn rodbus/src/tcp/client.rs | TcpChannelTask::run | tags=C13
@@ -83,3 +95,12 @@ impl TcpChannelTask {
 //@|        r matches Err(StateChange::Disable) ==> !final(self).client_loop.enabled,
 //@|        final(self).states().last() matches ClientState::WaitAfterFailedConnect(d) ==> final(self).connect_retry.calls() == old(self).connect_retry.calls().push(RetryCall::AfterFailedConnect(d)),
 }
+
+// the public pieces: handle + task.  The handle's sender and the task's receiver are the two ends of one queue of the configured size
+//@fn rodbus/src/tcp/client.rs | create_tcp_channel | tags=C10,C12,C13,C20
+//@|    ensures r.1.is_tcp_task(), r.1.tcp_task().wf(), r.1.tcp_task().states() == listener.log(),
+//@|        r.1.tcp_task().connection_handler is Tcp,
+//@|        r.1.tcp_task().client_loop.decode == options.decode_level, !r.1.tcp_task().client_loop.enabled,
+//@|        options.max_timeouts is None ==> r.1.tcp_task().client_loop.timeout_counter.limit() is None,
+//@|        options.max_timeouts is Some ==> r.1.tcp_task().client_loop.timeout_counter.limit() == Some(crate::nz_value(options.max_timeouts->Some_0)),
+//@|        r.1.tcp_task().client_loop.rx.0.chan == r.0.tx.chan,
